@@ -19,8 +19,9 @@ REQUIRED = {
                 ("Instance", "_reference"): "remap", ("Instance", "_pins"): "remap", ("OuterPin", "_inner_pin"): "remap"},
     "Library": {("Pin", "_wire"): "remap", ("Wire", "_pins"): "remap", ("Definition", "_references"): "remap",
                 ("Instance", "_reference"): "remap", ("Instance", "_pins"): "remap", ("OuterPin", "_inner_pin"): "remap"},
-    "Definition": {("Pin", "_wire"): "remap", ("Wire", "_pins"): "remap", ("Definition", "_references"): "reset"},
-    "Instance": {("Pin", "_wire"): "reset"},
+    "Definition": {("Pin", "_wire"): "remap", ("Wire", "_pins"): "remap", ("Definition", "_references"): "reset",
+                   ("OuterPin", "_inner_pin"): "keep", ("Instance", "_reference"): "keep"},
+    "Instance": {("Pin", "_wire"): "reset", ("OuterPin", "_inner_pin"): "keep", ("Instance", "_reference"): "keep", ("Instance", "_pins"): "keep"},
     "Port": {("Pin", "_wire"): "reset"},
     "Cable": {("Wire", "_pins"): "reset"},
     "Wire": {("Wire", "_pins"): "reset"},
@@ -425,6 +426,22 @@ def _l3(ctx, R, CM):
                 if kind is None:
                     continue
                 cells += 1
+                if kind == "keep":
+                    # documented to survive the clone: no cut of that field may reach these objects
+                    cutters = [fx for fx in fixers if fx[0].key in reach and fx[2] == field and fx[3] == "reset"
+                               and (fx[1] == fcls or fcls in [b.name for b in P.ir_mro(fx[1])] or fx[1] in [b.name for b in P.ir_mro(fcls)])]
+                    hit = None
+                    for fx in cutters:
+                        v = site_objects_covered(A, homes, fx[0], fx[4], fx[5]) if g is not None else \
+                            ("ENTRY" in CM.recv_homes(fx[0], fx[4], at=fx[5]) or "ALL" in CM.recv_homes(fx[0], fx[4], at=fx[5]))
+                        if v is True:
+                            hit = fx
+                    if hit is not None:
+                        R.bad("L3", "%s.clone|%s.%s|keep|%s" % (entry_cls, fcls, field, hit[0].qualname), hit[0].loc(hit[5]),
+                              "%s.clone(): %s lose their %s.%s (`%s` in %s), although the documentation of this entry says it is kept" % (entry_cls, desc, fcls, field, short(hit[5], 50), hit[0].qualname))
+                    else:
+                        R.ok("L3", "%s.clone: %s.%s of %s is kept" % (entry_cls, fcls, field, desc), entry.loc())
+                    continue
                 cands = [fx for fx in fixers if fx[0].key in reach and fx[2] == field and fx[3] == kind
                          and (fx[1] == fcls or fcls in [b.name for b in P.ir_mro(fx[1])] or fx[1] in [b.name for b in P.ir_mro(fcls)])]
                 verdicts = []
@@ -481,6 +498,51 @@ def _l3(ctx, R, CM):
         else:
             R.bad("L3b", "%s|prune" % f.key, f.loc(),
                   "%s does not rebuild the cloned definitions' reference sets from the members found in memo.values(): instances of the original netlist stay registered in the copy" % q)
+
+
+def _l6(ctx, R, CM):
+    """phase order inside the orchestrating _clone methods: the last redirect pass comes after every allocation,
+    so that memo already maps everything the pass may look up"""
+    R.rule("L6", "phase order: in Netlist._clone / Library._clone the final redirect-through-memo pass follows every allocation")
+    from ..cfg import cfg_of
+    P = ctx.P
+    n = 0
+    for rel, q in (("spydrnet/ir/netlist.py", "Netlist._clone"), ("spydrnet/ir/library.py", "Library._clone")):
+        f = P.func(rel, q)
+        cfg = cfg_of(f.node)
+        alloc, remap = [], []
+        for cn in cfg.nodes:
+            if cn.ast is None or cn.kind not in ("stmt",):
+                continue
+            for c in ast.walk(cn.ast):
+                if isinstance(c, ast.Call) and isinstance(c.func, ast.Attribute):
+                    if c.func.attr == "_clone":
+                        alloc.append(cn)
+                    elif c.func.attr == "_clone_rip_and_replace":
+                        remap.append(cn)
+        if not alloc or not remap:
+            raise AnalysisError("L6: %s no longer has both an allocation and a redirect pass" % q)
+        n += 1
+
+        def reaches(a, targets):
+            seen, todo = set(), [a]
+            while todo:
+                x = todo.pop()
+                for s_, lab in x.succ:
+                    if lab == "exc" or s_.id in seen:
+                        continue
+                    seen.add(s_.id)
+                    todo.append(s_)
+            return any(t.id in seen for t in targets)
+
+        late = [r for r in remap if not reaches(r, [a for a in alloc if a is not r])]
+        if late:
+            R.ok("L6", "%s: a redirect pass runs after the last allocation" % q, f.loc(late[0].ast))
+        else:
+            R.bad("L6", "%s|redirect-before-allocation" % f.key, f.loc(remap[-1].ast),
+                  "%s: every redirect pass (`%s`) can still be followed by an allocation (`%s`): objects cloned afterwards are not in memo when references and reference sets are redirected, so they are left out of the copy's bookkeeping"
+                  % (q, short(remap[-1].ast, 40), short(alloc[-1].ast, 40)))
+    R.count("orchestrating _clone methods (L6)", n)
 
 
 def _l5(ctx, R, CM):
@@ -548,4 +610,5 @@ def check_c07(ctx, R):
     R.floor("clone-family functions", 30)
     _l1_l2_l4(ctx, R, CM)
     _l3(ctx, R, CM)
+    _l6(ctx, R, CM)
     _l5(ctx, R, CM)
